@@ -136,11 +136,14 @@ def gen_strings(rng, tier):
 def scope(res, pid, rng, tier):
     from netconan.ip_anonymization import IpAnonymizer, IpV6Anonymizer, anonymize_ip_addr
     fails = []
+    ZEROS = ["10.11.0.00014", "1.2.3.0000014", "10.11.0.00014/24", "000000010.1.2.3", "1.00000.2.000255", "1.2.3.0000256", "9.9.9.00000000000000000009",
+             "ip route 1.2.3.000000 0000255.255.255.0"]
     nets = ["10.1.0.0/16"] if rng.random() < 0.5 else None
     c4 = ipgen.Cfg(4, "c06salt", 8, None, nets, "md5")
     c6 = ipgen.Cfg(6, "c06salt", 8, None, None, "md5")
     a4, a6 = c4.build(), c6.build()
     S4, S6 = gen_strings(rng, tier)
+    S4 = list(S4) + ZEROS + ["x " + z + " y" for z in ZEROS]
     sess = Sess()
     sess.op(c4.driver_new("t4"), lambda: "ok")
     if nets:
